@@ -437,6 +437,21 @@ def case_write_walk(arg):
             cls = readers(cfg['fmt'])['memmap']
             g = cls(p1, cfg)
             tr['got'] = present(g, names)
+            # whatever else the process opens in the meantime (a file of the
+            # same format on another grid) must not leak into the rewrite
+            try:
+                cfg3 = dict(cfg, nx=cfg['nx'] + 1, ny=cfg['ny'] + 2)
+                p3 = os.path.join(tmp, 'w3.' + cfg['fmt'])
+                o = pncgen(build_file(cfg3), p3, format=cfg['fmt'], verbose=0)
+                try:
+                    o.close()
+                except Exception:
+                    pass
+                decoy = cls(p3, cfg3)
+                present(decoy, names)
+                tr['decoy'] = True
+            except Exception:
+                tr['decoy'] = False
             p2 = os.path.join(tmp, 'w2.' + cfg['fmt'])
             o = pncgen(getattr(g, '_f', g), p2, format=cfg['fmt'], verbose=0)
             try:
